@@ -158,6 +158,7 @@ func checkC07(rc *RunCtx) *Report {
 			}
 			sc := sc
 			sc.Mode = QAny
+			sc.MapOrderDeviations = true
 			if sc.MaxStates == 0 {
 				sc.MaxStates = 600000
 			}
